@@ -433,6 +433,28 @@ func checkFeature(c *mc.Ctx, f *geojson.Feature) {
 		c.Failf("feature-bson", "marshal: %v | %s", err, desc)
 		return
 	}
+	// marshalled by value (not through a pointer), alone and as a field of another value: the same document
+	if vb, err := json.Marshal(*f); err != nil || !bytes.Equal(vb, b) {
+		c.Failf("feature-by-value", "json.Marshal of the Feature value gives %s (%v), of the pointer %s | %s", vb, err, b, desc)
+	}
+	if vb, err := json.Marshal(struct{ F geojson.Feature }{*f}); err != nil || !bytes.Equal(vb, append(append([]byte(`{"F":`), b...), '}')) {
+		c.Failf("feature-by-value", "json.Marshal of a struct holding the Feature by value gives %s (%v) | %s", vb, err, desc)
+	}
+	for what, v := range map[string]interface{}{"value": *f, "field": struct{ F geojson.Feature }{*f}} {
+		vb, err := bson.Marshal(v)
+		if err == nil && what == "field" {
+			vb = bson.Raw(vb).Lookup("f").Value
+		}
+		vf := &geojson.Feature{}
+		if err == nil {
+			err = bson.Unmarshal(vb, vf)
+		}
+		if err != nil {
+			c.Failf("feature-by-value", "BSON of the Feature as a %s: %v | %s", what, err, desc)
+		} else if d := sameFeature(f, vf); d != "" {
+			c.Failf("feature-by-value", "BSON of the Feature as a %s decodes differently: %s | %s", what, d, desc)
+		}
+	}
 	bf := &geojson.Feature{}
 	if err := bson.Unmarshal(bb, bf); err != nil {
 		c.Failf("feature-bson", "unmarshal: %v | %s", err, desc)
@@ -634,6 +656,25 @@ func main() {
 			}
 		}
 		cmp("json", back)
+		// marshalled by value (not through a pointer), alone and as a field of another value: the same document
+		if vb, err := json.Marshal(*fc); err != nil || !bytes.Equal(vb, b) {
+			c.Failf("fc-by-value", "json.Marshal of the FeatureCollection value gives %s (%v) | %s", vb, err, desc)
+		}
+		for what, v := range map[string]interface{}{"value": *fc, "field": struct{ FC geojson.FeatureCollection }{*fc}} {
+			vb, err := bson.Marshal(v)
+			if err == nil && what == "field" {
+				vb = bson.Raw(vb).Lookup("fc").Value
+			}
+			vfc := &geojson.FeatureCollection{}
+			if err == nil {
+				err = bson.Unmarshal(vb, vfc)
+			}
+			if err != nil {
+				c.Failf("fc-by-value", "BSON of the FeatureCollection as a %s: %v | %s", what, err, desc)
+			} else {
+				cmp("by-value-bson-"+what, vfc)
+			}
+		}
 		if berr != nil {
 			c.Failf("fc-bson", "BSON round trip: %v | %s", berr, desc)
 		} else {
